@@ -459,6 +459,10 @@ declarations:
   - decl: T get() const
 - decl: const std::string getName()
 - decl: enum Color { RED, BLUE }
+- decl: template<typename T> int measure(T value)
+  cxx_template:
+  - instantiation: <int>
+  - instantiation: <double>
 """,
     # namespaces flattened into the library's Fortran module (block-name clause only)
     "flat": """
